@@ -17,7 +17,7 @@ func init() { register("C07", true, runC07) }
 // merge, that every per-column factor is applied to the column and profile it was computed
 // for, and that scaling drops a sample only when all of its values are zero.
 func runC07(c *Check) {
-	c.Explanation = "Does not decide the linear law of C07 itself (sums and differences of value vectors, float conversion and rounding are runtime arithmetic). Decides the wiring clauses the law depends on, for every tuple of profiles and every option combination: in fetchProfiles the source is normalised against the base (not the reverse), only when -normalize is given and before the base is negated; the base and only the base is scaled by the constant -1, exactly once, before the two are combined in the order source, base (R1); combineProfiles aligns sample types, then harmonises units, then merges, each step on the same list and each error returned (R2); Normalize sums base and source per column, divides the base sum by the source sum of the same column under a zero guard, applies the factors to the source and never writes the base (R3); ScaleProfiles computes each factor from that profile's own unit of column i to the common unit of column i, stores it in slot i and applies the list to the same profile (R4); ScaleN keeps a sample iff any of its values is non-zero after scaling - the keep decision must look at every column (R5, a genuine defect on the pinned tree, recorded as a known finding); compatibilizeSampleTypes reorders sample types and values with the same index map (R6). Also: per-input id tables of Merge (R8), unit read before it is overwritten in ScaleProfiles (R9), every fetched source is collected (R10), every column's factor slot assigned (R11). Not decided: the numbers, rounding, CommonValueType's choice (see C15), the diff-base total (see C04)."
+	c.Explanation = "Does not decide the linear law of C07 itself (sums and differences of value vectors, float conversion and rounding are runtime arithmetic). Decides the wiring clauses the law depends on, for every tuple of profiles and every option combination: in fetchProfiles the source is normalised against the base (not the reverse), only when -normalize is given and before the base is negated; the base and only the base is scaled by the constant -1, exactly once, before the two are combined in the order source, base (R1); combineProfiles aligns sample types, then harmonises units, then merges, each step on the same list and each error returned (R2); Normalize sums base and source per column, divides the base sum by the source sum of the same column under a zero guard, applies the factors to the source and never writes the base (R3); ScaleProfiles computes each factor from that profile's own unit of column i to the common unit of column i, stores it in slot i and applies the list to the same profile (R4); ScaleN keeps a sample iff any of its values is non-zero after scaling - the keep decision must look at every column (R5, a genuine defect on the pinned tree, recorded as a known finding); compatibilizeSampleTypes reorders sample types and values with the same index map (R6). Also: per-input id tables of Merge (R8), unit read before it is overwritten in ScaleProfiles (R9), every fetched source is collected (R10), every column's factor slot assigned (R11). Round-I additions: with diff_base the total and its mean divisor come from the same samples (shared with C04-R6); a flag summarising a loop is raised, never overwritten, inside it. Not decided: the numbers, rounding, CommonValueType's choice (see C15), the diff-base total (see C04)."
 	c.baseWiring()
 	c.normalizeUnconditional()
 	c.runningMinimumAs("C07-R4")
@@ -464,7 +464,7 @@ func (c *Check) scaleProfilesPairing() {
 			// slots of the factor list: indexed stores, or the one append per iteration of
 			// the column loop when the list is grown instead
 			type slot struct {
-				idx ssa.Value      // index expression (indexed store), nil for an append
+				idx ssa.Value       // index expression (indexed store), nil for an append
 				hdr *ssa.BasicBlock // header of the loop around an append
 				val ssa.Value
 			}
